@@ -61,7 +61,26 @@ func verifC14BasicType(kind string) *BasicType {
 // `line` says) in a makefile fragment that optionally includes bsd.prefs.mk
 // first and optionally assigns some variables before the condition, in
 // --autofix mode, without touching the disk.  G.Testing stays false.
-func VerifCondSimplify(vars []VerifCondVar, prefs bool, assigned []string, line string) (res VerifCondResult) {
+func VerifCondSimplify(vars []VerifCondVar, prefs bool, assigned []string, line string) VerifCondResult {
+	var lines []string
+	if prefs {
+		lines = append(lines, ".include \"../../mk/bsd.prefs.mk\"")
+	} else {
+		lines = append(lines, "")
+	}
+	for _, a := range assigned {
+		lines = append(lines, a+"=\tvalue")
+	}
+	lines = append(lines, "", line, ".endif")
+	return VerifCondSimplifyLines(vars, lines, len(lines)-2)
+}
+
+// VerifCondSimplifyLines checks a whole makefile fragment (the lines after the
+// CVS id line) the way MkLines.checkLine feeds MkCondChecker: every line goes
+// through Tools.ParseToolLine (SeenPrefs), every variable assignment is entered
+// into checkAllData.vars, every .if/.elif is checked.  It reports what happened
+// to the line lines[condIndex].
+func VerifCondSimplifyLines(vars []VerifCondVar, lines []string, condIndex int) (res VerifCondResult) {
 	var out bytes.Buffer
 	res.Panicked = VerifPanic(func() {
 		G = NewPkglint(&out, io.Discard)
@@ -99,60 +118,55 @@ func VerifCondSimplify(vars []VerifCondVar, prefs bool, assigned []string, line 
 
 		var sb strings.Builder
 		sb.WriteString("# $" + "NetBSD$\n")
-		if prefs {
-			sb.WriteString(".include \"../../mk/bsd.prefs.mk\"\n")
-		} else {
-			sb.WriteString("\n")
+		for _, l := range lines {
+			sb.WriteString(l + "\n")
 		}
-		for _, a := range assigned {
-			sb.WriteString(a + "=\tvalue\n")
-		}
-		sb.WriteString("\n")
-		condIndex := 3 + len(assigned)
-		sb.WriteString(line + "\n")
-		sb.WriteString(".endif\n")
 
-		lines := convertToLogicalLines(NewCurrPath("filename.mk"), sb.String(), true)
-		mklines := NewMkLines(lines, nil, nil)
+		loaded := convertToLogicalLines(NewCurrPath("filename.mk"), sb.String(), true)
+		mklines := NewMkLines(loaded, nil, nil)
 		mklines.ForEach(func(mkline *MkLine) {
 			mklines.Tools.ParseToolLine(mklines, mkline, false, false)
 			if mkline.IsVarassign() {
 				mklines.checkAllData.vars.Define(mkline.Varname(), mkline)
 			}
-			if mkline.IsDirective() && mkline.Directive() != "endif" {
+			if mkline.IsDirective() && (mkline.Directive() == "if" || mkline.Directive() == "elif") {
 				NewMkCondChecker(mkline, mklines).Check()
 			}
 		})
-		ml := mklines.mklines[condIndex]
+		ml := mklines.mklines[condIndex+1]
 		if ml.Line.fix != nil && len(ml.Line.fix.texts) > 0 {
 			res.NewLine = strings.TrimSuffix(ml.Line.fix.texts[0], "\n")
 		} else {
 			res.NewLine = ml.Line.Text
 		}
 	})
-	for _, l := range strings.Split(out.String(), "\n") {
+	res.Fixes, res.Diags = verifC14ParseLog(out.String(), condIndex+2)
+	return
+}
+
+// the logged "Replacing %q with %q." of one line number; everything else as diagnostics
+func verifC14ParseLog(log string, lineno int) (fixes [][2]string, diags []string) {
+	prefix := "AUTOFIX: filename.mk:" + strconv.Itoa(lineno) + ": Replacing "
+	for _, l := range strings.Split(log, "\n") {
 		if l == "" {
 			continue
 		}
-		const marker = ": Replacing "
-		if strings.HasPrefix(l, "AUTOFIX: ") {
-			if i := strings.Index(l, marker); i >= 0 {
-				rest := l[i+len(marker):]
-				if q1, err := strconv.QuotedPrefix(rest); err == nil {
-					from, _ := strconv.Unquote(q1)
-					rest = rest[len(q1):]
-					if strings.HasPrefix(rest, " with ") {
-						rest = rest[6:]
-						if q2, err := strconv.QuotedPrefix(rest); err == nil {
-							to, _ := strconv.Unquote(q2)
-							res.Fixes = append(res.Fixes, [2]string{from, to})
-							continue
-						}
+		if strings.HasPrefix(l, prefix) {
+			rest := l[len(prefix):]
+			if q1, err := strconv.QuotedPrefix(rest); err == nil {
+				from, _ := strconv.Unquote(q1)
+				rest = rest[len(q1):]
+				if strings.HasPrefix(rest, " with ") {
+					rest = rest[6:]
+					if q2, err := strconv.QuotedPrefix(rest); err == nil {
+						to, _ := strconv.Unquote(q2)
+						fixes = append(fixes, [2]string{from, to})
+						continue
 					}
 				}
 			}
 		}
-		res.Diags = append(res.Diags, l)
+		diags = append(diags, l)
 	}
 	return
 }
